@@ -1,9 +1,11 @@
 import Gsp.Model.Mz
 import Gsp.Lemmas.Smt
+import Gsp.Lemmas.SmtPerm
 /-! C03 — the root is a canonical function of the document's meaning.
-    Proved here: content independence of insertion order, root binding and single-field sensitivity under the
-    idealised-hash hypothesis. The full insertion-order theorem for the tree *shape* (`addAll_perm`) is stated in
-    DESIGN.md and covered by the correspondence (roots compared across shuffled renderings and repeated runs). -/
+    Proved here: insertion-order independence of the tree itself (`insertion_order_irrelevant`, via the canonical
+    tree `build` of Gsp.Lemmas.SmtPerm), content independence, root binding and single-field sensitivity under the
+    idealised-hash hypothesis. Invariance under re-presentation of the *document* (json-gold's expansion and
+    URDNA2015) is covered by the metamorphic correspondence. -/
 namespace Gsp.Props.C03
 open Gsp Gsp.Smt
 
@@ -47,6 +49,17 @@ theorem content_perm_indep (l₁ l₂ : List (Nat × Nat)) (t₁ t₂ : T) (hp :
     have := (List.reverse_perm l₁).map (·.1)
     exact this.nodup_iff.mpr n1
   rw [lookup_perm hr hnd q]
+
+/-- **The tree — hence the root, for any node hash — is independent of insertion order**: Go's map iteration
+    order when entries are inserted or re-inserted on restore, shuffled arrays and object keys only ever permute
+    the list of (key, value) pairs. -/
+theorem insertion_order_irrelevant (P : List Nat → Nat) (l₁ l₂ : List (Nat × Nat)) (t₁ t₂ : T) (hp : l₁.Perm l₂)
+    (h₁ : addAll l₁ .empty = .ok t₁) (h₂ : addAll l₂ .empty = .ok t₂) : T.hash P t₁ = T.hash P t₂ := by
+  rw [addAll_perm l₁ l₂ t₁ t₂ hp h₁ h₂]
+
+/-- a caller-provided empty tree is the default tree -/
+theorem empty_tree_param (canon : String → Option String) (h : Hasher) (ds : Rdf.Dataset) :
+    Mz.merklize canon h ds .empty = Mz.merklize canon h ds := rfl
 
 /-- **Root binding**: under the idealised-hash hypothesis equal roots mean equal trees — the root determines
     every leaf's key, value and position. -/
